@@ -188,5 +188,165 @@ theorem mixRho_reduce (n : Nat) : ∀ (fuel : Nat) (m : Mixture), m.length ≤ f
       mixRho_reduce n fuel _ (by simp at h; omega) (reduceScan_mixN n t0 _ _ _ _ hm.tail)]
     exact hs
 
+/-! ### Pauli errors and depolarizing noise -/
+
+/-- the gate of the `k`-th one-qubit Pauli "transformation" of `DepolarizingNoise.apply` (`identity, x_gate, y_gate, z_gate`) -/
+def pauliG (k q : Nat) : Gate :=
+  match k with
+  | 0 => .I q
+  | 1 => .X q
+  | 2 => .Y q
+  | _ => .Z q
+
+theorem pauliGate_eq : ∀ (k : Nat) (t : Tab) (q : Nat), Mix.pauliGate k t q = t.map (pauliG k q).act
+  | 0, _, _ => rfl
+  | 1, _, _ => rfl
+  | 2, _, _ => rfl
+  | _ + 3, _, _ => rfl
+
+theorem pauliG_wf (n : Nat) : ∀ (k q : Nat), q < n → (pauliG k q).WF n
+  | 0, _, _ => trivial
+  | 1, _, h => h
+  | 2, _, h => h
+  | _ + 3, _, h => h
+
+/-- the depolarizing channel on qubit `q` as the density-matrix backend applies it: `(1−p) ρ + p/3 (XρX† + YρY† + ZρZ†)` -/
+noncomputable def depolH (n q : Nat) (p : Rat) (ρ : HMat n) : HMat n :=
+  ((1 - p : ℚ) : ℂ) • ρ +
+    ((p / 3 : ℚ) : ℂ) • (conjH (gateMat n (.X q)) ρ + conjH (gateMat n (.Y q)) ρ + conjH (gateMat n (.Z q)) ρ)
+
+theorem depolH_add (n q : Nat) (p : Rat) (a b : HMat n) : depolH n q p (a + b) = depolH n q p a + depolH n q p b := by
+  unfold depolH
+  simp only [conjH_add, smul_add]
+  abel
+
+theorem depolH_smul (n q : Nat) (p : Rat) (c : ℂ) (a : HMat n) : depolH n q p (c • a) = c • depolH n q p a := by
+  unfold depolH
+  simp only [conjH_smul, smul_add, smul_comm c]
+
+theorem depolH_zero (n q : Nat) (p : Rat) : depolH n q p (0 : HMat n) = 0 := by
+  unfold depolH; simp [conjH_zero]
+
+theorem tabRho_pauliGate (n : Nat) (k q : Nat) (hq : q < n) (t : Tab) (hn : t.n = n) :
+    tabRho n (Mix.pauliGate k t q).norm = conjH (gateMat n (pauliG k q)) (tabRho n t) := by
+  rw [pauliGate_eq, tabRho_norm n _ (show (t.map (pauliG k q).act).n = n from hn),
+    tabRho_gate n t hn _ (pauliG_wf n k q hq)]
+
+/-- one branch of `DepolarizingNoise.apply`: the Kraus terms with a positive factor sum to the depolarizing channel applied to
+    the branch (the dropped terms have factor exactly 0 when `0 ≤ p ≤ 1`) -/
+theorem mixRho_depolBranch (n q : Nat) (hq : q < n) (p : Rat) (hp0 : 0 ≤ p) (hp1 : p ≤ 1) (w : Rat) (t : Tab) (hn : t.n = n) :
+    mixRho n (Mix.depolBranch p q w t) = ((w : ℚ) : ℂ) • depolH n q p (tabRho n t) := by
+  have e : List.range 4 = [0, 1, 2, 3] := by decide
+  have h1 : 0 ≤ 1 - p := by linarith
+  have h2 : 0 ≤ p / 3 := div_nonneg hp0 (by norm_num)
+  have g0 := tabRho_pauliGate n 0 q hq t hn
+  have g1 := tabRho_pauliGate n 1 q hq t hn
+  have g2 := tabRho_pauliGate n 2 q hq t hn
+  have g3 := tabRho_pauliGate n 3 q hq t hn
+  have gi : conjH (gateMat n (pauliG 0 q)) (tabRho n t) = tabRho n t := conjH_one _
+  rw [gi] at g0
+  unfold Mix.depolBranch Mix.depolFactors
+  rw [e]
+  simp only [List.filterMap_cons, List.filterMap_nil, List.getD_cons_zero, List.getD_cons_succ]
+  unfold depolH
+  rcases lt_or_eq_of_le h1 with a | a <;> rcases lt_or_eq_of_le h2 with b | b
+  · simp only [a, b, if_true, mixRho_cons, mixRho_nil, g0, g1, g2, g3]
+    show _ = _ • (_ + _ • (conjH (gateMat n (pauliG 1 q)) _ + conjH (gateMat n (pauliG 2 q)) _ + conjH (gateMat n (pauliG 3 q)) _))
+    simp only [smul_add, smul_smul, add_zero]
+    push_cast
+    abel
+  · have hb : ¬ (0 < p / 3) := by rw [← b]; exact lt_irrefl 0
+    simp only [a, hb, if_true, if_false, mixRho_cons, mixRho_nil, g0]
+    rw [← b]
+    simp only [smul_add, smul_smul, add_zero]
+    push_cast
+    simp
+  · have ha : ¬ (0 < 1 - p) := by rw [← a]; exact lt_irrefl 0
+    simp only [b, ha, if_true, if_false, mixRho_cons, mixRho_nil, g1, g2, g3]
+    show _ = _ • (_ + _ • (conjH (gateMat n (pauliG 1 q)) _ + conjH (gateMat n (pauliG 2 q)) _ + conjH (gateMat n (pauliG 3 q)) _))
+    rw [← a]
+    simp only [smul_add, smul_smul, add_zero]
+    push_cast
+    simp only [mul_zero, zero_smul, zero_add]
+    abel
+  · exfalso
+    have : p = 0 := by
+      have := b.symm; rcases div_eq_zero_iff.1 this with h | h
+      · exact h
+      · norm_num at h
+    rw [this] at a; norm_num at a
+
+theorem mixRho_flatMap_depol (n q : Nat) (hq : q < n) (p : Rat) (hp0 : 0 ≤ p) (hp1 : p ≤ 1) :
+    ∀ (m : Mixture), MixN n m →
+      mixRho n (m.flatMap fun x => Mix.depolBranch p q x.1 x.2) = depolH n q p (mixRho n m)
+  | [], _ => by simp [mixRho_nil, depolH_zero]
+  | (w, t) :: rest, hm => by
+    simp only [List.flatMap_cons, mixRho_append, mixRho_cons]
+    rw [mixRho_depolBranch n q hq p hp0 hp1 w t hm.head, mixRho_flatMap_depol n q hq p hp0 hp1 rest hm.tail,
+      depolH_add, depolH_smul]
+
+theorem flatMap_depol_mixN (n q : Nat) (p : Rat) (m : Mixture) (hm : MixN n m) :
+    MixN n (m.flatMap fun x => Mix.depolBranch p q x.1 x.2) := by
+  intro x hx
+  simp only [List.mem_flatMap, Mix.depolBranch, List.mem_filterMap, List.mem_range] at hx
+  obtain ⟨⟨pi, ti⟩, hy, k, _, hk⟩ := hx
+  simp only at hk
+  split at hk
+  · injection hk with hk; subst hk
+    show (Mix.pauliGate k ti q).norm.n = n
+    rw [Tab.norm_n, pauliGate_eq]
+    exact hm (pi, ti) hy
+  · cases hk
+
+/-- **`DepolarizingNoise.apply` on a mixture** (branching, the `factor > 0` filter, the weight check and `reduce()` as coded)
+    is the depolarizing channel on `Σ w_k ρ(T_k)`, for every probability `0 ≤ p ≤ 1` -/
+theorem mixRho_depolarize (n q : Nat) (hq : q < n) (p : Rat) (hp0 : 0 ≤ p) (hp1 : p ≤ 1) (m m' : Mixture) (hm : MixN n m)
+    (h : Mix.depolarize p q m = .ok m') : mixRho n m' = depolH n q p (mixRho n m) := by
+  rw [Mix.depolarize_unfold] at h
+  split at h; · cases h
+  split at h; · cases h
+  injection h with h; subst h
+  rw [mixRho_reduce n _ _ (Nat.le_refl _) (flatMap_depol_mixN n q p m hm), mixRho_flatMap_depol n q hq p hp0 hp1 m hm]
+
+theorem reduce_mixN (n fuel : Nat) (m : Mixture) (hm : MixN n m) : MixN n (Mix.reduce fuel m) := by
+  intro x hx
+  obtain ⟨y, hy, e⟩ := reduce_tabs fuel m x hx
+  rw [e]; exact hm y hy
+
+theorem depolarize_mixN (n q : Nat) (p : Rat) (m m' : Mixture) (hm : MixN n m) (h : Mix.depolarize p q m = .ok m') :
+    MixN n m' := by
+  rw [Mix.depolarize_unfold] at h
+  split at h; · cases h
+  split at h; · cases h
+  injection h with h; subst h
+  exact reduce_mixN n _ _ (flatMap_depol_mixN n q p m hm)
+
+/-- Hilbert-space action of `PauliError(k)` on qubit `q`: conjugation by the Pauli -/
+noncomputable def pauliH (n q : Nat) (k : PauliK) (ρ : HMat n) : HMat n :=
+  match k with
+  | .X => conjH (gateMat n (.X q)) ρ
+  | .Y => conjH (gateMat n (.Y q)) ρ
+  | .Z => conjH (gateMat n (.Z q)) ρ
+  | _ => ρ
+
+/-- **`PauliError.apply` on a mixture** is conjugation of `Σ w_k ρ(T_k)` by the Pauli -/
+theorem mixRho_pauliError (n q : Nat) (hq : q < n) (k : PauliK) (m m' : Mixture) (hm : MixN n m)
+    (h : Mix.pauliError k q m = .ok m') : mixRho n m' = pauliH n q k (mixRho n m) := by
+  cases k <;> simp only [Mix.pauliError] at h
+  · injection h with h; subst h; rfl
+  · injection h with h; subst h; exact mixRho_mapGate n (.X q) hq m hm
+  · injection h with h; subst h; exact mixRho_mapGate n (.Y q) hq m hm
+  · injection h with h; subst h; exact mixRho_mapGate n (.Z q) hq m hm
+  · cases h
+
+theorem pauliError_mixN (n q : Nat) (k : PauliK) (m m' : Mixture) (hm : MixN n m)
+    (h : Mix.pauliError k q m = .ok m') : MixN n m' := by
+  cases k <;> simp only [Mix.pauliError] at h
+  · injection h with h; subst h; exact hm
+  · injection h with h; subst h; exact mapTab_mixN n (fun t => t.xGate q) (fun _ h => h) m hm
+  · injection h with h; subst h; exact mapTab_mixN n (fun t => t.yGate q) (fun _ h => h) m hm
+  · injection h with h; subst h; exact mapTab_mixN n (fun t => t.zGate q) (fun _ h => h) m hm
+  · cases h
+
 end MixDM
 end Graphiq
